@@ -27,6 +27,8 @@ def make_fun(d, counter):
             return float(c @ x)
         if kind == "const":
             return 0.0
+        if kind == "cosprod":    # non-convex, many stationary points inside a box of a few units
+            return float(np.prod(np.cos(w * (x - c))) + 0.1 * np.sum((x - c) ** 2))
         if kind == "floor":      # a quadratic with a flat floor: the value `level` is attained EXACTLY on a whole ball
             return float(max(np.sum(w * (x - c) ** 2), d["level"]))
         raise ValueError(kind)
